@@ -166,6 +166,8 @@ int ezc3d::ParametersNS::GroupNS::Parameter::read(ezc3d::c3d &file, int nbCharIn
 
     // number of dimension of parameter (0 for scalar)
     int nDimensions(file.readInt(1*ezc3d::DATA_TYPE::BYTE));
+    if (nDimensions < 0 || nDimensions > 7)
+        throw std::ios_base::failure ("Parameter number of dimensions unrecognized");
     if (nDimensions == 0) // In the special case of a scalar (a single character for a string)
         _dimension.push_back(1);
     else // otherwise it's a matrix
